@@ -124,6 +124,10 @@ mod scaled {
                     let mut buf = vec![0u8; n];
                     let mut got = 0usize;
                     let mut err = false;
+                    if n == 0 {
+                        // a zero-length read is issued as such (a cursor answers Ok(0) and nothing changes)
+                        err = r.read(&mut []).is_err();
+                    }
                     while got < n {
                         match r.read(&mut buf[got..]) {
                             Ok(0) => break,
